@@ -63,7 +63,8 @@ def run(ctx):
         ctx.violation("%s-%s" % (KEY.get(v["kind"], v["kind"]), vec["mode"]),
                       "%s: real %s writer, frame sizes %s, socket accepts %s bytes: results %s wire %s, a further write "
                       "afterwards: %s wrote %s" % (v["kind"], vec["mode"], vec["lens"], vec["k"], vec["res"], vec["wire"],
-                                                  vec["res2"], vec["wire2"]), vec)
+                                                  vec["res2"], vec["wire2"]) + (
+                              "; one more, a coalescing window later: %s wrote %s" % (vec.get("res3"), vec.get("wire3"))), vec)
     if drift:
         ctx.add_drift("%d writer-level cases differ from Writer.tla's prediction without contradicting C07" % drift)
     ctx.log("case replay: %d cases, %d violations, %d drift" % (len(vecs), len(viol) - drift, drift))
@@ -95,8 +96,16 @@ def run(ctx):
         # ... and so must a request whose context had ended before it was even submitted
         callseq = {e["req"]: e["seq"] for e in evs if e["ev"] == "call"}
         precancelled = {e["req"] for e in evs if e["ev"] == "env_cancel" and e["req"] in callseq and e["seq"] < callseq[e["req"]]}
+        # ... and a request that was submitted while another write was stuck in the socket (env_held) and
+        # whose context ended before the socket drained (env_unhold): it cannot have begun writing
+        held = [e["seq"] for e in evs if e["ev"] == "env_held"]
+        unhold = [e["seq"] for e in evs if e["ev"] == "env_unhold"]
+        blocked = set()
+        if held and unhold:
+            blocked = {e["req"] for e in evs if e["ev"] == "env_cancel" and held[0] < e["seq"] < unhold[0]
+                       and callseq.get(e["req"], 0) > held[0]}
         for rec in recs[1:]:
-            if rec["req"] in notstarted or rec["req"] in precancelled:
+            if rec["req"] in notstarted or rec["req"] in precancelled or rec["req"] in blocked:
                 rec["wok"] = -2
         wp = path.replace(".ndjson", ".wire.ndjson")
         vf.write_ndjson(wp, recs)
